@@ -123,9 +123,8 @@ theorem logDetReg_fresh : Fresh p (Impl.logDetReg c E p) := by
   by_cases h1 : c.hasReg = true
   · cases hq : p.logDetRegularizationMatrixTerm with
     | some v =>
-      have := allocConst_fresh p [v]
       intro h hp
-      simpa [h1] using this h hp
+      simp [h1]
     | none =>
       have := (good_alloc1 (reduced_good c E p (regularizationMatrix_good E p))
         (fun _ b => [E.logDetReg b]) (fun _ b => [E.logDetReg b]) (fun _ _ _ _ _ => rfl)).2
@@ -168,6 +167,54 @@ theorem cinv_init (w : Bool) (h0 : Heap α) :
     CInv c E p w h0 { heap := h0, cache := fun _ => none } :=
   ⟨Extends.refl h0, fun _ _ h => by simp at h, fun _ h => by simp at h⟩
 
+/-- the in-place step of `curvature_reg_matrix`, given the array `x` that plays `curvature_matrix` -/
+theorem inplace_step (w : Bool) (h0 : Heap α) (hp : p.Below h0.size) (st : Impl.CState α)
+    (hi : CInv c E p w h0 st) (hreg : c.hasReg = true)
+    (x : Heap α × Ref) (x1 : Extends st.heap x.1) (l1 : x.2 < x.1.size) (f1 : h0.size ≤ x.2)
+    (r1 : x.1.read x.2 = Spec.curvatureMatrix c E w (contents h0 p))
+    (hne : ∀ b r, b ≠ Access.curvatureMatrix → st.cache b = some r → r ≠ x.2) :
+    CInv c E p w h0
+      ((({ heap := (Impl.regularizationMatrix E p x.1).1.write x.2
+            (addBuf ((Impl.regularizationMatrix E p x.1).1.read x.2)
+              ((Impl.regularizationMatrix E p x.1).1.read (Impl.regularizationMatrix E p x.1).2)),
+           cache := st.cache } : Impl.CState α).store Access.curvatureMatrix none).store
+          Access.curvatureRegMatrix (some x.2))
+    ∧ ((Impl.regularizationMatrix E p x.1).1.write x.2
+          (addBuf ((Impl.regularizationMatrix E p x.1).1.read x.2)
+            ((Impl.regularizationMatrix E p x.1).1.read (Impl.regularizationMatrix E p x.1).2))).read x.2
+        = Spec.output c E w (contents h0 p) Access.curvatureRegMatrix := by
+  have hps : p.Below st.heap.size := hp.mono hi.ext.1
+  have hcs : contents st.heap p = contents h0 p := contents_ext hi.ext hp
+  obtain ⟨y1, l2, r2⟩ := regularizationMatrix_good E p x.1 (hps.mono x1.1)
+  have hcx : contents x.1 p = contents h0 p := by rw [contents_ext x1 hps, hcs]
+  have l1' : x.2 < (Impl.regularizationMatrix E p x.1).1.size := Nat.lt_of_lt_of_le l1 y1.1
+  have hval : addBuf ((Impl.regularizationMatrix E p x.1).1.read x.2)
+        ((Impl.regularizationMatrix E p x.1).1.read (Impl.regularizationMatrix E p x.1).2)
+      = Spec.output c E w (contents h0 p) Access.curvatureRegMatrix := by
+    rw [y1.2 _ l1, r1, r2, hcx]
+    simp [Spec.output, Spec.curvatureRegMatrix, hreg]
+  refine ⟨⟨?_, ?_, ?_⟩, ?_⟩
+  · simp only [Impl.CState.store]
+    exact ext_write (hi.ext.trans (x1.trans y1)) _ _ f1
+  · intro b r hb
+    simp only [Impl.CState.store] at hb ⊢
+    by_cases hb1 : b = Access.curvatureRegMatrix
+    · subst hb1
+      simp only [↓reduceIte, Option.some.injEq] at hb
+      subst hb
+      refine ⟨by simpa using l1', ?_⟩
+      rw [read_write_same _ _ _ l1', hval]
+    · by_cases hb2 : b = Access.curvatureMatrix
+      · subst hb2
+        simp [hb1] at hb
+      · simp only [hb1, hb2, ↓reduceIte] at hb
+        obtain ⟨lb, rb⟩ := hi.hit b r hb
+        refine ⟨by simpa using Nat.lt_of_lt_of_le lb (x1.trans y1).1, ?_⟩
+        rw [read_write_ne _ _ _ _ (hne b r hb2 hb), (x1.trans y1).2 r lb, rb]
+  · intro r hr
+    simp [Impl.CState.store] at hr
+  · rw [read_write_same _ _ _ l1', hval]
+
 theorem cachedAccess_spec (w : Bool) (h0 : Heap α) (hp : p.Below h0.size) (a : Access)
     (st : Impl.CState α) (hi : CInv c E p w h0 st) :
     CInv c E p w h0 (Impl.cachedAccess c E Policy.repaired true w p a st).1
@@ -186,69 +233,27 @@ theorem cachedAccess_spec (w : Bool) (h0 : Heap α) (hp : p.Below h0.size) (a : 
       obtain ⟨ha, hreg, hone⟩ := hsp
       subst ha
       simp only [hreg, hone, and_self, ↓reduceIte]
-      -- the array that is written into: the cached curvature_matrix, or a new one
-      have hx : ∃ x : Heap α × Ref,
-          x = (match st.cache Access.curvatureMatrix with
-            | some rf => (st.heap, rf)
-            | none => Impl.curvatureMatrix c E Policy.repaired w p st.heap)
-          ∧ Extends st.heap x.1 ∧ x.2 < x.1.size ∧ h0.size ≤ x.2
-          ∧ x.1.read x.2 = Spec.curvatureMatrix c E w (contents h0 p)
-          ∧ (∀ b r, b ≠ Access.curvatureMatrix → st.cache b = some r → r ≠ x.2) := by
-        cases hcf : st.cache Access.curvatureMatrix with
-        | some rf =>
-          refine ⟨(st.heap, rf), rfl, Extends.refl _, (hi.hit _ rf hcf).1, (hi.own rf hcf).1,
-            (hi.hit _ rf hcf).2, ?_⟩
-          intro b r hb hbr hrr
-          exact (hi.own rf hcf).2 b hb (by rw [hbr, hrr])
-        | none =>
-          obtain ⟨x1, l1, r1⟩ := (curvatureMatrix_good c E p w).1 st.heap hps
-          have f1 := (curvatureMatrix_good c E p w).2 st.heap hps
-          refine ⟨_, rfl, x1, l1, Nat.le_trans hi.ext.1 f1, by rw [r1, hcs], ?_⟩
-          intro b r _ hbr
-          have := (hi.hit b r hbr).1
-          omega
-      obtain ⟨x, hxe, x1, l1, f1, r1, hne⟩ := hx
-      rw [← hxe]
-      obtain ⟨y1, l2, r2⟩ := regularizationMatrix_good E p x.1 (hps.mono x1.1)
-      have hcx : contents x.1 p = contents h0 p := by rw [contents_ext x1 hps, hcs]
-      have l1' : x.2 < (Impl.regularizationMatrix E p x.1).1.size := Nat.lt_of_lt_of_le l1 y1.1
-      have hval : addBuf ((Impl.regularizationMatrix E p x.1).1.read x.2)
-            ((Impl.regularizationMatrix E p x.1).1.read (Impl.regularizationMatrix E p x.1).2)
-          = Spec.curvatureRegMatrix c E w (contents h0 p) := by
-        rw [y1.2 _ l1, r1, r2, hcx]
-        simp [Spec.curvatureRegMatrix, hreg]
-      refine ⟨⟨?_, ?_, ?_⟩, ?_⟩
-      · -- ext
-        simp only [Impl.CState.store]
-        exact ext_write (hi.ext.trans (x1.trans y1)) _ _ f1
-      · -- hit
-        intro b r hb
-        simp only [Impl.CState.store] at hb ⊢
-        by_cases hb1 : b = Access.curvatureRegMatrix
-        · subst hb1
-          simp only [↓reduceIte, Option.some.injEq] at hb
-          subst hb
-          refine ⟨by simpa using l1', ?_⟩
-          rw [read_write_same _ _ _ l1', hval]
-          rfl
-        · by_cases hb2 : b = Access.curvatureMatrix
-          · subst hb2
-            simp [hb1] at hb
-          · simp only [hb1, hb2, ↓reduceIte] at hb
-            obtain ⟨lb, rb⟩ := hi.hit b r hb
-            refine ⟨by simpa using Nat.lt_of_lt_of_le lb (x1.trans y1).1, ?_⟩
-            rw [read_write_ne _ _ _ _ (hne b r hb2 hb), (x1.trans y1).2 r lb, rb]
-      · -- own
-        intro r hr
-        simp [Impl.CState.store] at hr
-      · simp only [Impl.CState.store]
-        rw [read_write_same _ _ _ l1', hval]
-        rfl
+      cases hcf : st.cache Access.curvatureMatrix with
+      | some rf =>
+        simp only []
+        refine inplace_step c E p w h0 hp st hi hreg (st.heap, rf) (Extends.refl _)
+          (hi.hit _ rf hcf).1 (hi.own rf hcf).1 (hi.hit _ rf hcf).2 ?_
+        intro b r hb hbr hrr
+        exact (hi.own rf hcf).2 b hb (by rw [hbr, hrr])
+      | none =>
+        simp only []
+        obtain ⟨x1, l1, r1⟩ := (curvatureMatrix_good c E p w).1 st.heap hps
+        have f1 := (curvatureMatrix_good c E p w).2 st.heap hps
+        refine inplace_step c E p w h0 hp st hi hreg _ x1 l1 (Nat.le_trans hi.ext.1 f1)
+          (by rw [r1, hcs]) ?_
+        intro b r _ hbr
+        have := (hi.hit b r hbr).1
+        exact Nat.ne_of_lt (Nat.lt_of_lt_of_le this f1)
     · -- every other read: run the accessor, remember the array
       simp only [hsp, ↓reduceIte]
       obtain ⟨x1, l1, r1⟩ := access_good c E p w a st.heap hps
       have af := access_aliasOrFresh c E p w a st.heap hps
-      refine ⟨⟨hi.ext.trans x1, ?_, ?_⟩, by rw [r1, hcs]⟩
+      refine ⟨⟨hi.ext.trans x1, ?_, ?_⟩, by simp only [Impl.CState.store]; rw [r1, hcs]⟩
       · intro b r hb
         simp only [Impl.CState.store] at hb ⊢
         by_cases hba : b = a
@@ -270,22 +275,25 @@ theorem cachedAccess_spec (w : Bool) (h0 : Heap α) (hp : p.Below h0.size) (a : 
           intro b hb
           simp only [hb, ↓reduceIte]
           intro hbr
-          have := (hi.hit b _ hbr).1
-          simp only [Impl.access] at this
-          omega
+          have hlt := (hi.hit b _ hbr).1
+          simp only [Impl.access] at hlt
+          exact absurd hlt (Nat.not_lt.mpr f1)
         · simp only [hac, ↓reduceIte] at hr
           obtain ⟨o1, o2⟩ := hi.own r hr
           refine ⟨o1, ?_⟩
           intro b hb
           by_cases hba : b = a
           · subst hba
-            simp only [↓reduceIte, Option.some.injEq]
+            simp only [↓reduceIte]
             intro heq
+            have heq' := Option.some.inj heq
             have lr := (hi.hit _ r hr).1
             rcases af with hal | hfr
-            · have := hp.lt hal
-              omega
-            · omega
+            · have hlt := hp.lt hal
+              rw [heq'] at hlt
+              exact absurd hlt (Nat.not_lt.mpr o1)
+            · rw [heq'] at hfr
+              exact absurd lr (Nat.not_lt.mpr hfr)
           · simp only [hba, ↓reduceIte]
             exact o2 b hb
 
